@@ -59,14 +59,19 @@ theorem host_selection_noglob : matchingHostNoGlobEvents =
       "assign res0 = sortHostsReverseHostPort(res0)",
       "return "] := by decide +kernel
 
-/-- the host order: nothing to do below two hosts; `var0` maps every host to `ReverseHostPort(host)`; first
-sort: reversed name descending, ties by the key (`hostBefore`); second, stable: host names before patterns,
-where "pattern" is `host == "" || ContainsAny(host, metacharacters)` (`isGlobPat`, `sortHosts`) -/
+/-- the host order: nothing to do below two hosts; `var0` maps every host to the two results of the unexported
+`reverseHostPort` (its rune-swapping loop is the first two events; `revParts`); first sort: the reversed host
+parts differ ⇒ `lessSpecificHost(other, this)`, else the ports differ ⇒ greater port first, else ties by the key
+(`hostBefore`); second, stable: host names before patterns, where "pattern" is
+`host == "" || ContainsAny(host, metacharacters)` (`isGlobPat`, `sortHosts`) -/
 theorem host_order : sortHostsEvents =
     ["return p0 | len(p0) < 2",
-      "store var0[val(p0)] = ReverseHostPort(val(p0)) | 1 < len(p0)",
-      "freturn var0[p0[a1]] < var0[p0[a0]] | 1 < len(p0) & var0[p0[a0]] != var0[p0[a1]]",
-      "freturn p0[a1] < p0[a0] | 1 < len(p0) & var0[p0[a0]] == var0[p0[a1]]",
+      "store var2[var3] = var2[var4] | 1 < len(p0) & var3 < len(var2) / 2",
+      "store var2[var4] = var2[var3] | 1 < len(p0) & var3 < len(var2) / 2",
+      "store var0[val(p0)] = hostPort{reverseHostPort.0, reverseHostPort.1} | 1 < len(p0)",
+      "freturn lessSpecificHost(var0[p0[a1]].host, var0[p0[a0]].host) | 1 < len(p0) & var0[p0[a0]].host != var0[p0[a1]].host",
+      "freturn var0[p0[a1]].port < var0[p0[a0]].port | 1 < len(p0) & var0[p0[a0]].host == var0[p0[a1]].host & var0[p0[a0]].port != var0[p0[a1]].port",
+      "freturn p0[a1] < p0[a0] | 1 < len(p0) & var0[p0[a0]].host == var0[p0[a1]].host & var0[p0[a0]].port == var0[p0[a1]].port",
       "call sort.Slice(p0, func) | 1 < len(p0)",
       "freturn !(\"\" == p0[a0] || strings.ContainsAny(p0[a0], \"*?[{\\\\\")) && (\"\" == p0[a1] || strings.ContainsAny(p0[a1], \"*?[{\\\\\")) | 1 < len(p0)",
       "call sort.SliceStable(p0, func) | 1 < len(p0)",
